@@ -85,9 +85,10 @@ def main(run: core.Run) -> None:
                        'a history is not extended after a call that raised (C19 covers the state after a refusal)']
     if tier == 'quick':
         items = docexp.corpus(docs.L_EDIT, 2, depth=1, modes=(True, False))
-        items += docexp.corpus(docs.L_EDIT, 3, nmin=3, depth=1)
-        d2 = docexp.corpus(docs.L_EDIT, 1, depth=2)
-        run.bounds.update({'depth1': 'all docs <= 3 lines (both attribution modes <= 2 lines)', 'depth2': 'docs of 1 line'})
+        items += docexp.corpus(docs.L_EDIT, 3, nmin=3, depth=1, level='basic')
+        d2 = docexp.corpus(docs.L_EDIT, 1, depth=2, level='basic')
+        run.bounds.update({'depth1': 'docs <= 2 lines, both attribution modes, full argument menu; 3-line docs with in-range arguments',
+                           'depth2': '1-line docs, in-range arguments'})
     else:
         items = docexp.corpus(docs.L_EDIT, 3, depth=1, modes=(True, False))
         d2 = docexp.corpus(docs.L_EDIT, 2, depth=2)
